@@ -260,3 +260,68 @@ Proof.
     destruct (nrun NNormal [] pre) as [e [m cur]]. cbn [fst snd] in *. inversion Hm; subst.
     rewrite nscan_blank_line. reflexivity.
 Qed.
+
+(* ================================================================================================ *)
+(* B. Totality with error classes                                                                    *)
+(* ================================================================================================ *)
+(* [load_npd] is a fold of the total function [nstep] over the lines of the total scanner [nscan], so it
+   answers on every byte string; the answer is an object or one of the classes EBADMSG / EINVAL
+   (EINVAL: an invalid '#:parameters' specifier rejected by vnadata_set_format, finding DF7), never the
+   class NEINTERNAL. *)
+Definition ok_class (c : nclass) : Prop := match c with NEINTERNAL => False | _ => True end.
+Definition ok_state (s : nst) : Prop := match s with NErr c => ok_class c | _ => True end.
+
+Ltac destruct_inner :=
+  repeat (cbv beta iota;
+          match goal with
+          | |- context [match ?x with _ => _ end] =>
+              lazymatch x with
+              | context [match _ with _ => _ end] => fail
+              | _ => destruct x
+              end
+          end); cbv beta iota.
+
+Lemma hline_step_class : forall h k f, match hline_step h k f with inl c => ok_class c | inr _ => True end.
+Proof.
+  intros h k f. unfold hline_step.
+  destruct_inner; exact I.
+Qed.
+
+Lemma post_header_class : forall h, match post_header h with inl c => ok_class c | inr _ => True end.
+Proof.
+  intros h. unfold post_header.
+  destruct_inner; exact I.
+Qed.
+
+Lemma data_step_class : forall x d r, ok_state (data_step x d r).
+Proof.
+  intros x d r. unfold data_step.
+  destruct_inner; exact I.
+Qed.
+
+Lemma nstep_class : forall s line, ok_state s -> ok_state (nstep s line).
+Proof.
+  intros s line Hs. destruct s as [h | x d | c]; cbn [nstep].
+  - destruct (record_of line) as [k f | f |].
+    + pose proof (hline_step_class h k f) as H. destruct (hline_step h k f); exact H.
+    + pose proof (post_header_class h) as H. destruct (post_header h); [exact H | apply data_step_class].
+    + exact I.
+  - apply data_step_class.
+  - exact Hs.
+Qed.
+
+Lemma nfold_class : forall lines s, ok_state s -> ok_state (fold_left nstep lines s).
+Proof. induction lines as [| l lines IH]; intros s Hs; [exact Hs |]. cbn [fold_left]. apply IH, nstep_class, Hs. Qed.
+
+Theorem load_npd_total_lemma : forall l,
+  (exists o, load_npd l = NOk o) \/ load_npd l = NError NEBADMSG \/ load_npd l = NError NEINVAL.
+Proof.
+  intros l. unfold load_npd.
+  pose proof (nfold_class (npd_lines l) (NHeader nh0) I) as Hs.
+  destruct (fold_left nstep (npd_lines l) (NHeader nh0)) as [h | x d | c]; cbn [nfinish].
+  - pose proof (post_header_class h) as H. destruct (post_header h) as [c | x].
+    + destruct c; [right; left; reflexivity | right; right; reflexivity | destruct H].
+    + destruct (x_nfreq x =? 0)%Z; [left; eexists; reflexivity | right; left; reflexivity].
+  - destruct (nd_left d =? 0)%Z; [left; eexists; reflexivity | right; left; reflexivity].
+  - destruct c; [right; left; reflexivity | right; right; reflexivity | destruct Hs].
+Qed.
